@@ -516,8 +516,28 @@ fn schedule_params(seed: u64, n: usize, i: usize) -> (usize, u64, Vec<u8>) {
     (family, script_seed, bytes)
 }
 
+/// `build` + a smoke schedule; rebuilds (at most twice) if the smoke schedule fails in the harness plumbing, which
+/// happens when a concurrent build in the shared trybuild directory handed this process another flow's dylib.
+fn build_checked(n: usize) -> RaftSim {
+    let mut attempt = 0;
+    loop {
+        let sim = build(n);
+        let obs = Mutex::new(Obs::new(n));
+        let ports = sim.ports();
+        let res = run_schedule(&sim.sim, vec![0u8; 64], async || drive(ports, 2, 0, &obs).await);
+        match res {
+            Err(msg) if guard_kind(&msg).is_none() && attempt < 2 => {
+                eprintln!("smoke schedule failed ({msg}); rebuilding the simulator");
+                attempt += 1;
+                std::thread::sleep(std::time::Duration::from_secs(5));
+            }
+            _ => return sim,
+        }
+    }
+}
+
 fn worker(n: usize, total: usize, wi: usize, w: usize, seed: u64) -> WorkerOut {
-    let sim = build(n);
+    let sim = build_checked(n);
     let t0 = std::time::Instant::now();
     let mut part = Partial::default();
     let mut sets: BTreeMap<&'static str, HashSet<u64>> = BTreeMap::new();
@@ -572,7 +592,7 @@ fn parse_scenario(s: &str) -> Vec<Vec<Act>> {
 /// Bounded-exhaustive part on a 3-member cluster: the simulator enumerates every schedule of `scenario`.
 fn exhaustive_small(scenario: &str) -> WorkerOut {
     let bursts = parse_scenario(scenario);
-    let sim = build(3);
+    let sim = build_checked(3);
     let ports = sim.ports();
     let t0 = std::time::Instant::now();
     let agg: Mutex<(Partial, BTreeMap<&'static str, HashSet<u64>>)> =
